@@ -369,6 +369,34 @@ def check(rep, F, tier, replay=None):
         for f_ in sorted(cf_ - jf_):
             rep.violation("JSON-fields", "%s.%s" % (adt_.rsplit("::", 1)[-1], f_), "the CBOR writer of %s reads `%s` but the derived JSON form does not carry it (skipped): a value whose `%s` was set through the API comes back from JSON with the default and serialises to different bytes (different hash)" % (adt_.rsplit("::", 1)[-1], f_, f_), {})
     rep.floor("structs with derived JSON form and CBOR writer", 80, n_jf)
+    # CONV-iter: converters do not swallow elements or errors
+    rep.rule("CONV-iter", "the metadata / datum JSON converters and the chunked-bytes helpers (protocol_types/metadata.rs, protocol_types/plutus/plutus_data.rs) use no element- or error-dropping adaptor (filter / filter_map / flat_map / flatten over fallible items, take / skip / find, Result::ok / unwrap_or*) outside the audited inventory: an element outside the schema produces an error, it is not skipped")
+    CONV_OK = {
+        ("protocol_types::metadata::hex_string_to_bytes", "ok"): "the Option result IS the verdict: None means `not a hex string`, the caller then keeps the text",
+        ("protocol_types::plutus::plutus_data::decode_plutus_datum_to_json_value", "ok"): "tries to read bytes as UTF-8 for the basic schema; failure falls back to the hex form, nothing is dropped",
+        ("protocol_types::plutus::plutus_data::decode_plutus_datum_to_json_value", "unwrap_or_else"): "the fallback of the line above: hex form",
+    }
+    DROP_ = re.compile(r"(Iterator::(nth|take|skip|step_by|take_while|skip_while|find|find_map|filter|filter_map|flat_map|flatten|last|position|next_back|rfind|reduce|map_while|scan)$|Result::<T, E>::(ok|unwrap_or|unwrap_or_default|unwrap_or_else)$|Option::<T>::(unwrap_or|unwrap_or_default|unwrap_or_else)$)")
+    got_ = {}
+    n_fn = 0
+    for fid_, fn_ in F.fns.items():
+        if "/tests/" in fn_["file"] or F.is_derived(fid_):
+            continue
+        if not (fn_["file"].endswith("protocol_types/metadata.rs") or fn_["file"].endswith("protocol_types/plutus/plutus_data.rs")):
+            continue
+        n_fn += 1
+        base_ = F.key(fid_.split("::{closure")[0])
+        for c in F.calls(fid_):
+            if DROP_.search(c.to or ""):
+                k_ = (base_, (c.to or "").rsplit("::", 1)[-1])
+                got_[k_] = got_.get(k_, 0) + 1
+    rep.inst("CONV-iter", n_fn)
+    for k_, n_ in sorted(got_.items()):
+        if k_ in CONV_OK and n_ <= 1:
+            rep.allow("CONV-iter", n_)
+            continue
+        rep.violation("CONV-iter", "%s|%s" % k_, "%s uses `%s` (%d site(s)) on fallible / partial items: elements that are outside the schema are skipped instead of producing an error - e.g. decode_arbitrary_bytes_from_metadatum([bytes, text, bytes]) returns the concatenation of the byte chunks" % (k_[0], k_[1], n_), {})
+    rep.floor("converter functions inspected", 60, n_fn)
     from ruleutil import int_range_rule
     int_range_rule(rep, F)
     return rep.finish(
